@@ -9,14 +9,18 @@ open Util
 let imax_s = "18446744073709551615"
 let imax = n_of_string imax_s
 
-(* ---- the attribute universe: 24 paths, index k -> (k/8, 10 + (k/4) mod 2, k mod 4) *)
+(* ---- the attribute universe: 24 "near" paths, index k -> (k/8, 10 + (k/4) mod 2, k mod 4), and 20 "far"
+   paths, index 24+j -> (10+j, 100+j, 7), each on an endpoint and cluster of its own *)
+let npaths = 44
 let path_of_index (k : int) : path =
-  { p_ep = n_of_int (k / 8); p_cl = n_of_int (10 + (k / 4) mod 2); p_at = n_of_int (k mod 4) }
+  if k >= 24 then { p_ep = n_of_int (10 + k - 24); p_cl = n_of_int (100 + k - 24); p_at = n_of_int 7 }
+  else { p_ep = n_of_int (k / 8); p_cl = n_of_int (10 + (k / 4) mod 2); p_at = n_of_int (k mod 4) }
 let index_of_path (p : path) : int =
-  int_of_n p.p_ep * 8 + (int_of_n p.p_cl - 10) * 4 + int_of_n p.p_at
+  if int_of_n p.p_ep >= 10 then 24 + int_of_n p.p_ep - 10
+  else int_of_n p.p_ep * 8 + (int_of_n p.p_cl - 10) * 4 + int_of_n p.p_at
 let paths_of_mask (m : int) : path list =
   List.filter_map (fun k -> if m land (1 lsl k) <> 0 then Some (path_of_index k) else None)
-    (List.init 24 (fun k -> k))
+    (List.init npaths (fun k -> k))
 let mask_of_paths (l : path list) : int =
   List.fold_left (fun m p -> m lor (1 lsl index_of_path p)) 0 l
 
